@@ -163,4 +163,13 @@ int pthread_cond_wait(pthread_cond_t *c, pthread_mutex_t *m)
 	return 0;
 }
 int pthread_cond_broadcast(pthread_cond_t *c) { (void) c; G_os_cond_broadcasts++; return 0; }
+#ifdef VERIF_NATIVE
+/* native link helper: the ENOSYS fallback of <urcu/futex.h> lives in liburcu-common; harnesses that do not include
+ * src/compat_futex.c get inert weak definitions (never reached: the futex stub above does not return ENOSYS unless asked) */
+#include <time.h>
+__attribute__((weak)) int compat_futex_async(int32_t *uaddr, int op, int32_t val, const struct timespec *timeout, int32_t *uaddr2, int32_t val3)
+{ (void) uaddr; (void) op; (void) val; (void) timeout; (void) uaddr2; (void) val3; return 0; }
+__attribute__((weak)) int compat_futex_noasync(int32_t *uaddr, int op, int32_t val, const struct timespec *timeout, int32_t *uaddr2, int32_t val3)
+{ (void) uaddr; (void) op; (void) val; (void) timeout; (void) uaddr2; (void) val3; return 0; }
+#endif
 #endif
